@@ -14,6 +14,8 @@ def build(spec_files=None, contract_files=None):
     S = Sorts()
     w = World(S)
     lib.install(w)
+    from . import stores
+    stores.install(w)
     contracts.install(w)
     w.spec_errors = {}
     w.wf = specs.WfSym(w)
